@@ -214,6 +214,22 @@ def leaf(kind, dec, streaming, guided, n, fo, b1, b2, b3):
     return _decode(dec, streaming, data, mk_type(t) if guided else None)
 
 
+REAL_LENS = (1, 17, 310, 400)
+REAL_TAILS = (b"", b".5", b"e-5", b"e400", b"E+9999999")
+
+
+def real_long(dec, guided, nr, ni, d, z, ti):
+    """REAL in ISO 6093 text form whose mantissa has 2..401 digits: d repeated, then z; optional fraction / exponent tail."""
+    body = bytes([nr]) + bytes([48 + d]) * REAL_LENS[ni] + bytes([48 + z]) + REAL_TAILS[ti]
+    n = len(body)
+    data = bytes([0x09, n]) + body if n < 128 else bytes([0x09, 0x82, n // 256, n % 256]) + body
+    return _decode(dec, False, data, mk_type(T("REAL")) if guided else None)
+
+
+OBLIGATIONS.append(Obl("real_long", real_long, {"dec": I(0, 2), "guided": B, "nr": I(1, 3), "ni": I(0, 3), "d": I(0, 9), "z": I(0, 9), "ti": I(0, len(REAL_TAILS) - 1)},
+                       shards=[{"nr": C(a_), "ni": C(b_), "dec": C(0)} for a_ in (1, 2, 3) for b_ in (0, 2)],
+                       thorough_shards=[{"nr": C(a_), "ni": C(b_), "dec": C(c_)} for a_ in (1, 2, 3) for b_ in range(4) for c_ in range(3)], budget=200, thorough_budget=600,
+                       doc="character-form REAL with mantissas of 2..401 digits, with and without fraction/exponent tails"))
 for kind in range(len(LEAF_KINDS)):
     _tag, _t, _alpha = LEAF_KINDS[kind]
     _hi = 255 if _alpha is None else len(_alpha) - 1
